@@ -54,6 +54,13 @@ def family(tier, rng):
                          {"a": TR, "b": LSW(0), "c": TR},
                          {"a": TR, "b": MULTI(TR, K("lsft")), "c": TR}],
         {"delegate-to-first-layer": "yes"}, syntax=["layer", "sparse", "layer"])
+    # use-defsrc outputs the defsrc key whatever the layers hold - also with delegate-to-first-layer, where only the
+    # transparent search gets the first layer as a further stop (bare, inside a multi, on held and switched-to layers,
+    # at positions whose first-layer action is a key, a layer-while-held and a layer-switch)
+    add("src_delegate", [{"a": K("x"), "b": LWH(1), "c": LSW(2)},
+                         {"a": SRC, "b": TR, "c": MULTI(K("lsft"), SRC)},
+                         {"a": MULTI(K("lctl"), SRC), "b": SRC, "c": LSW(0)}],
+        {"delegate-to-first-layer": "yes"}, syntax=["layer", "layer", "map"])
     add("chord_multi", [{"a": CH(["lsft"], "x"), "b": MULTI(K("lctl"), K("y")), "c": LWH(1)},
                         {"a": SRC, "b": XX, "c": TR}])
     add("release_ops", [{"a": MULTI(K("x"), LWH(1)), "b": RELK("x"), "c": K("y")},
@@ -141,7 +148,7 @@ def run(tier, seed):
         keys = [cfgdesc.code(k) for k in list(desc["keys"]) + list(desc.get("unmapped", []))]
         inst = {"name": "c04_" + name, "kbd": kbd, "keys": keys, "qmax": 3,
                 "monitor": {"module": "P_C04", "params": params}}
-        r = mc.check_instance(inst, wd, workers=6, timeout=900)
+        r = mc.check_instance(inst, wd, workers=4, timeout=900)
         res.add_instance(r)
         if len(res.samples) < 3:
             res.samples.append({"instance": name, "kbd": kbd, "states": r["states"], "edges": r.get("edges")})
